@@ -61,6 +61,18 @@ func lemmaRoundTripError(m *Error) (out *Error, werr, rerr error, pos, n int) {
 	return out, werr, rerr, r.Pos(), len(data)
 }
 
+// A PipeResult that reports a FAILURE carries no message (PipeTo sends it to its forwarders when the piped Ask timed
+// out or failed): it must be encodable in the default configuration (no user codec). (The decode half - ReadMessage
+// gives nil back, the error is rebuilt from its code - is exercised by replays/c12_piperesult_failure_test.go.)
+//@ func lemmaPipeResultFailureEncodes
+//@   modifies anything
+//@   requires m != nil && m.Message == nil && len(m.Id) <= 4294967295 && messages.regwf() && w != nil && messages.wwf(w) && w.err == nil
+//@   requires m.Error == nil || (typeis(m.Error, "*vivid.Error") && !nilptr(m.Error) && len(unboxed(m.Error, "*vivid.Error").msg) <= 4294967295)
+//@   ensures werr == nil
+func lemmaPipeResultFailureEncodes(m *PipeResult, w *messages.Writer) (werr error) {
+	return pipeResultWriter(m, w, nil)
+}
+
 // supervision decisions (C08): the predicates the core switches on, and what they mean
 //@ pure dRestart(d SupervisionDecision) bool = d == SupervisionDecisionRestart || d == SupervisionDecisionGracefulRestart
 //@ pure dStop(d SupervisionDecision) bool = d == SupervisionDecisionStop || d == SupervisionDecisionGracefulStop
